@@ -6,7 +6,7 @@ import ast
 from vlib.core import AnalysisError, Report
 from vlib.flow import enclosing_tries, parent_map
 from vlib.grammar import EMPTY, GrammarModel
-from vlib.match import FI, X, calls, closure, deref, has_call, nodes
+from vlib.match import FI, X, calls, closure, deref, facts, has_call, nodes
 from vlib.nodemodel import NodeModel, snakelize
 from vlib.srcindex import ClassInfo, FuncInfo, SourceIndex, attr_chain, const_str, unparse, walk_no_nested
 from vlib.typer import Typer
@@ -303,6 +303,10 @@ def rule_d(rep: Report, idx: SourceIndex, nm: NodeModel) -> None:
 	em = meth['__emit']
 	ecalls = [(n.lineno, 'make_event' if unparse(n.func).endswith('__make_event') else 'emit') for n in walk_no_nested(em.node) if isinstance(n, ast.Call) and (unparse(n.func).endswith('__make_event') or unparse(n.func).endswith('emitter.emit'))]
 	r.check([k for _, k in sorted(ecalls)] == ['make_event', 'emit'], 'event-before-handler', em.where, f'__emit must build the event (pop) before invoking the handler: {sorted(ecalls)}')
+	emx = X(em)
+	for c_ in calls(emx, '__make_event'):
+		conds = facts(emx, c_)
+		r.check(not conds, 'event-popped-for-every-node', em.where, f'__emit must build the event (which pops the results of the node\'s children) for every node before the handler runs; here it is built only under {conds}, so for the other nodes the children\'s results stay on the stack and surface in a sibling\'s or the parent\'s event', unparse(c_))
 	ex = meth['exec']
 	seq = []
 	for n in walk_no_nested(ex.node):
